@@ -667,6 +667,8 @@ def _gen_spec_once(rng, pf):
     }
     if rng.random() < 0.2:
         spec["charac_sheet_order"] = "reversed"
+    if rng.random() < 0.25:
+        spec["comp_sheet_order"] = "reversed"
     if float(start).is_integer() and float(dt).is_integer() and float(spec["settings"]["end"]).is_integer() and rng.random() < 0.6:
         spec["settings"]["int_typed"] = True
     # residual marker sanity: a cell holds either '>' or parameters
@@ -736,7 +738,9 @@ def framework_workbook(spec):
 
     ws = wb.create_sheet("Compartments")
     ws.append(["Code Name", "Display Name", "Is Source", "Is Sink", "Is Junction", "Databook Page", "Default Value", "Setup Weight"])
-    for c in spec["comps"]:
+    # (the order of the rows is free: the integration order of junctions follows the transitions, not the sheet)
+    comps_rows = list(reversed(spec["comps"])) if spec.get("comp_sheet_order") == "reversed" else spec["comps"]
+    for c in comps_rows:
         kind = c["kind"]
         db = "comps" if c.get("db") else None
         sw = c.get("setup")
@@ -745,7 +749,7 @@ def framework_workbook(spec):
         ws.append([c["name"], c.get("label", "Comp " + c["name"]), "y" if kind == "src" else "n", "y" if kind == "sink" else "n", "y" if kind == "junc" else "n", db, c.get("default"), sw])
 
     ws = wb.create_sheet("Transitions")
-    names = [c["name"] for c in spec["comps"]]
+    names = [c["name"] for c in comps_rows]
     ws.append(["Transition Matrix"] + names)
     cell = {(a, b): p for a, b, p in spec["trans"]}
     for a in names:
